@@ -21,7 +21,9 @@ MINIMUM = {'R10.1': 1, 'R10.2': 4, 'R10.3': 2, 'R10.4': 2}
 
 # rules of sibling properties that are necessary conditions of this one too
 # (evaluated by the sibling module on the same graphs, reported under this property)
-ALSO = {'C03': {'R03.3': 'the first DeletionDate line decides, also when it is invalid'},
+ALSO = {'C19': {'R19.3': ('every *.trashinfo name in info/ is an entry and gets purged (the name '
+                   'filter is the suffix test)', 'empty:')},
+ 'C03': {'R03.3': 'the first DeletionDate line decides, also when it is invalid'},
  'C09': {'R09.5': 'every trash directory of a volume is purged ($topdir/.Trash-$uid next to '
                   '.Trash/$uid)'}}
 
